@@ -45,11 +45,15 @@ Definition coef (b0 b1 b2 : Z) : Z := b0 + 256 * b1 + 65536 * b2.
 Lemma from_le4 b0 b1 b2 e : from_le [b0; b1; b2; e] = coef b0 b1 b2 + 16777216 * e.
 Proof. unfold coef. cbn [from_le]. lia. Qed.
 
-Lemma bits_to_target4 b0 b1 b2 e :
-  bits_to_target [b0; b1; b2; e] =
-  if 3 <=? e then Ok (PInt (coef b0 b1 b2 * 256 ^ (e - 3))) else Ok (PFloat (coef b0 b1 b2) (3 - e)).
+Lemma bits_to_target_x4 b0 b1 b2 e :
+  bits_to_target_x [b0; b1; b2; e] =
+  let c := coef b0 b1 b2 in
+  let target := if e <? 3 then Z.shiftr (Z.land c 8388607) (8 * (3 - e))
+                else Z.land c 8388607 * 256 ^ (e - 3) in
+  if negb (Z.land c 8388608 =? 0) && negb (target =? 0) then B2T_value_error
+  else if 2 ^ 256 <=? target then B2T_value_error else B2T_ok target.
 Proof.
-  unfold bits_to_target. cbn [rev app]. unfold coef. cbn [from_le].
+  unfold bits_to_target_x. cbn [rev app]. unfold coef. cbn [from_le].
   replace (b0 + 256 * (b1 + 256 * (b2 + 256 * 0))) with (b0 + 256 * b1 + 65536 * b2) by lia. reflexivity.
 Qed.
 
@@ -107,8 +111,146 @@ Qed.
 Lemma pow256_le a b : 0 <= a <= b -> 256 ^ a <= 256 ^ b.
 Proof. intros H. apply Z.pow_le_mono_r; lia. Qed.
 
-(* (6) on the guarded domain bits_to_target is exactly Core's SetCompact, which reports
-   neither a negative nor an overflowing value *)
+(* the three fields SetCompact reads from nCompact = c + 2^24 * e *)
+Lemma compact_fields c e : 0 <= c < 16777216 -> 0 <= e ->
+  Z.shiftr (c + 16777216 * e) 24 = e /\
+  Z.land (c + 16777216 * e) 8388607 = Z.land c 8388607 /\
+  Z.land (c + 16777216 * e) 8388608 = Z.land c 8388608.
+Proof.
+  intros Hc He. split; [|split].
+  - rewrite Z.shiftr_div_pow2 by lia. change (2 ^ 24) with 16777216.
+    replace (c + 16777216 * e) with (c + e * 16777216) by lia.
+    rewrite Z.div_add by lia. rewrite Z.div_small by lia. lia.
+  - change 8388607 with (Z.ones 23). rewrite !Z.land_ones by lia. change (2 ^ 23) with 8388608.
+    replace (c + 16777216 * e) with (c + (2 * e) * 8388608) by lia.
+    now rewrite Z.mod_add by lia.
+  - change 8388608 with (2 ^ 23). rewrite !land_pow2 by lia. rewrite !testbit_div by lia.
+    change (2 ^ 23) with 8388608.
+    replace (c + 16777216 * e) with (c + (2 * e) * 8388608) by lia.
+    rewrite Z.div_add by lia. rewrite Z.odd_add, Z.odd_mul. cbn [Z.odd andb]. now rewrite xorb_false_r.
+Qed.
+
+(* Core's overflow flag is exactly "the value does not fit in 256 bits" *)
+Lemma ovf_iff w e : 0 <= w < 8388608 -> 3 < e ->
+  negb (w =? 0) && ((34 <? e) || ((255 <? w) && (33 <? e)) || ((65535 <? w) && (32 <? e))) =
+  (2 ^ 256 <=? w * 256 ^ (e - 3)).
+Proof.
+  intros Hw He.
+  destruct (Z.eqb_spec w 0) as [->|NZ].
+  { rewrite Z.mul_0_l. reflexivity. }
+  cbn [negb andb].
+  assert (0 < 256 ^ (e - 3)) as Hp by (apply Z.pow_pos_nonneg; lia).
+  destruct (Z.le_gt_cases e 32) as [L32|L32].
+  - destruct (Z.ltb_spec 34 e); [lia|]. destruct (Z.ltb_spec 33 e); [lia|]. destruct (Z.ltb_spec 32 e); [lia|].
+    rewrite !andb_false_r. cbn [orb]. symmetry. apply Z.leb_gt.
+    pose proof (pow256_le (e - 3) 29 ltac:(lia)) as P.
+    apply Z.le_lt_trans with (m := 8388607 * 256 ^ 29); [nia | reflexivity].
+  - destruct (Z.ltb_spec 32 e) as [_|]; [|lia]. rewrite andb_true_r.
+    destruct (Z.le_gt_cases e 33) as [L33|L33].
+    + assert (e = 33) as -> by lia. change (34 <? 33) with false. change (33 <? 33) with false.
+      rewrite andb_false_r. cbn [orb]. change (256 ^ (33 - 3)) with (256 ^ 30).
+      change (2 ^ 256) with (65536 * 256 ^ 30).
+      destruct (Z.ltb_spec 65535 w); destruct (Z.leb_spec (65536 * 256 ^ 30) (w * 256 ^ 30)); try reflexivity; nia.
+    + destruct (Z.ltb_spec 33 e) as [_|]; [|lia]. rewrite andb_true_r.
+      destruct (Z.le_gt_cases e 34) as [L34|L34].
+      * assert (e = 34) as -> by lia. change (34 <? 34) with false. cbn [orb].
+        change (256 ^ (34 - 3)) with (256 ^ 31). change (2 ^ 256) with (256 * 256 ^ 31).
+        destruct (Z.ltb_spec 255 w); destruct (Z.ltb_spec 65535 w);
+          destruct (Z.leb_spec (256 * 256 ^ 31) (w * 256 ^ 31)); try reflexivity; nia.
+      * destruct (Z.ltb_spec 34 e) as [_|]; [|lia]. cbn [orb]. symmetry. apply Z.leb_le.
+        pose proof (pow256_le 32 (e - 3) ltac:(lia)) as P. change (2 ^ 256) with (256 ^ 32). nia.
+Qed.
+
+Lemma shiftr_le w k : 0 <= w -> 0 <= k -> 0 <= Z.shiftr w k <= w.
+Proof.
+  intros Hw Hk. rewrite Z.shiftr_div_pow2 by lia.
+  assert (0 < 2 ^ k) as Hp by (apply Z.pow_pos_nonneg; lia).
+  split; [apply Z.div_pos; lia|]. apply Z.div_le_upper_bound; [lia|]. nia.
+Qed.
+
+(* (6) bits_to_target IS Core's SetCompact on EVERY four-byte bits value: the same integer when
+   Core flags neither negative nor overflow, ValueError when it flags either *)
+Lemma bits_to_target_x_core4 b0 b1 b2 e :
+  bits4_ok b0 b1 b2 e ->
+  bits_to_target_x [b0; b1; b2; e] =
+  let '(v, neg, ovf) := set_compact (from_le [b0; b1; b2; e]) in
+  if neg || ovf then B2T_value_error else B2T_ok v.
+Proof.
+  intros Hok. rewrite bits_to_target_x4, from_le4. cbv zeta.
+  set (c := coef b0 b1 b2).
+  assert (0 <= c < 16777216) as Hc by (destruct Hok as (?&?&?&?); unfold c, coef; lia).
+  assert (0 <= e < 256) as He by (destruct Hok as (?&?&?&?); assumption).
+  unfold set_compact.
+  destruct (compact_fields c e Hc ltac:(lia)) as [-> [-> ->]].
+  set (w := Z.land c 8388607).
+  assert (0 <= w < 8388608) as Hw.
+  { unfold w. change 8388607 with (Z.ones 23). rewrite Z.land_ones by lia. apply Z.mod_pos_bound. reflexivity. }
+  set (sg := negb (Z.land c 8388608 =? 0)).
+  destruct (Z.leb_spec e 3) as [L|L].
+  - (* nSize <= 3: the word is shifted down, nothing can overflow *)
+    set (nw := Z.shiftr w (8 * (3 - e))).
+    assert (0 <= nw <= w) as Hnw by (apply shiftr_le; lia).
+    assert ((if e <? 3 then nw else w * 256 ^ (e - 3)) = nw) as ->.
+    { destruct (Z.ltb_spec e 3) as [|G]; [reflexivity|]. assert (e = 3) as -> by lia.
+      unfold nw. change (8 * (3 - 3)) with 0. rewrite Z.shiftr_0_r. change (3 - 3) with 0.
+      rewrite Z.pow_0_r. lia. }
+    destruct (Z.ltb_spec 34 e); [lia|]. destruct (Z.ltb_spec 33 e); [lia|]. destruct (Z.ltb_spec 32 e); [lia|].
+    rewrite !andb_false_r. cbn [orb]. rewrite ?andb_false_r, ?orb_false_r.
+    destruct (Z.leb_spec (2 ^ 256) nw) as [B|_].
+    { exfalso. assert (nw < 2 ^ 256); [|lia]. apply Z.le_lt_trans with (m := 8388608); [lia | reflexivity]. }
+    rewrite andb_comm. destruct (negb (nw =? 0) && sg); reflexivity.
+  - (* nSize > 3: the word is shifted up *)
+    destruct (Z.ltb_spec e 3) as [|_]; [lia|].
+    rewrite Z.shiftl_mul_pow2 by lia.
+    replace (2 ^ (8 * (e - 3))) with (256 ^ (e - 3)).
+    2:{ change 256 with (2 ^ 8). rewrite <- Z.pow_mul_r by lia. reflexivity. }
+    assert (0 < 256 ^ (e - 3)) as Hp by (apply Z.pow_pos_nonneg; lia).
+    rewrite (ovf_iff w e Hw L).
+    assert ((w * 256 ^ (e - 3) =? 0) = (w =? 0)) as ->.
+    { destruct (Z.eqb_spec w 0) as [->|NZ]; [now rewrite Z.mul_0_l|]. apply Z.eqb_neq. nia. }
+    rewrite (andb_comm sg).
+    destruct (negb (w =? 0) && sg); [reflexivity|]. cbn [orb].
+    destruct (Z.leb_spec (2 ^ 256) (w * 256 ^ (e - 3))) as [|B]; [reflexivity|].
+    unfold u256. rewrite Z.mod_small by nia. reflexivity.
+Qed.
+
+Lemma bits4_of_bytes bits : bytes_ok bits -> length bits = 4%nat ->
+  exists b0 b1 b2 e, bits = [b0; b1; b2; e] /\ bits4_ok b0 b1 b2 e.
+Proof.
+  intros Hok Hlen. destruct bits as [|b0 [|b1 [|b2 [|e [|? ?]]]]]; try discriminate.
+  exists b0, b1, b2, e. split; [reflexivity|].
+  unfold bytes_ok in Hok. inversion Hok as [|? ? A0 G1]; subst. inversion G1 as [|? ? A1 G2]; subst.
+  inversion G2 as [|? ? A2 G3]; subst. inversion G3 as [|? ? A3 _]; subst.
+  unfold byte_ok in *. repeat split; lia.
+Qed.
+
+Lemma bits_to_target_x_core bits : bytes_ok bits -> length bits = 4%nat ->
+  bits_to_target_x bits =
+  let '(v, neg, ovf) := set_compact (from_le bits) in
+  if neg || ovf then B2T_value_error else B2T_ok v.
+Proof.
+  intros Hok Hlen. destruct (bits4_of_bytes bits Hok Hlen) as (b0 & b1 & b2 & e & -> & H4).
+  now apply bits_to_target_x_core4.
+Qed.
+
+(* the same for the function callers see: the int, or an exception *)
+Lemma bits_to_target_eq_core bits : bytes_ok bits -> length bits = 4%nat ->
+  bits_to_target bits =
+  let '(v, neg, ovf) := set_compact (from_le bits) in
+  if neg || ovf then Err else Ok (PInt v).
+Proof.
+  intros Hok Hlen. unfold bits_to_target. rewrite (bits_to_target_x_core bits Hok Hlen).
+  destruct (set_compact (from_le bits)) as [[v neg] ovf]. destruct (neg || ovf); reflexivity.
+Qed.
+
+Lemma set_compact_range n : 0 <= n ->
+  let '(v, _, _) := set_compact n in 0 <= v < 2 ^ 256 \/ Z.shiftr n 24 <= 3.
+Proof.
+  intros Hn. unfold set_compact. destruct (Z.leb_spec (Z.shiftr n 24) 3); [right; lia|].
+  left. unfold u256. apply Z.mod_pos_bound. reflexivity.
+Qed.
+
+(* on the guarded domain (kept from the time before the fix de6be4c) *)
 Lemma bits_to_target_core bits :
   compact_guard bits = true ->
   exists v, bits_to_target bits = Ok (PInt v) /\ set_compact (from_le bits) = (v, false, false) /\
@@ -118,34 +260,12 @@ Proof.
   intros G. apply andb_true_iff in G as [G Govf]. apply andb_true_iff in G as [G Gs].
   apply andb_true_iff in G as [Gok Ge]. apply Z.leb_le in Ge. apply Z.ltb_lt in Gs.
   apply bytes_okb_ok in Gok.
-  assert (bits4_ok b0 b1 b2 e) as Hok.
-  { unfold bytes_ok in Gok. inversion Gok as [|? ? A0 G1]; subst. inversion G1 as [|? ? A1 G2]; subst.
-    inversion G2 as [|? ? A2 G3]; subst. inversion G3 as [|? ? A3 _]; subst.
-    unfold byte_ok in *. repeat split; lia. }
+  destruct (bits4_of_bytes _ Gok eq_refl) as (? & ? & ? & ? & [= <- <- <- <-] & Hok).
   pose proof (set_compact4 b0 b1 b2 e Hok Gs Ge) as SC. rewrite SC in Govf. cbn [snd] in Govf.
-  rewrite bits_to_target4. destruct (Z.leb_spec 3 e) as [_|]; [|lia].
-  set (c := coef b0 b1 b2) in *.
-  assert (0 <= c < 8388608) as Hc by (destruct Hok as (?&?&?&?); unfold c, coef; lia).
-  assert (0 <= c * 256 ^ (e - 3) < 2 ^ 256) as Hv.
-  { apply negb_true_iff in Govf.
-    destruct (Z.eqb_spec c 0) as [EZ|NZ]; [rewrite EZ, Z.mul_0_l; split; [lia | reflexivity]|].
-    cbn [negb andb] in Govf.
-    apply orb_false_iff in Govf as [Govf G3]. apply orb_false_iff in Govf as [G1 G2].
-    apply Z.ltb_ge in G1.
-    assert (0 < 256 ^ (e - 3)) as Hp by (apply Z.pow_pos_nonneg; lia).
-    split; [nia|].
-    destruct (Z.le_gt_cases e 32) as [L|L].
-    - pose proof (pow256_le (e - 3) 29 ltac:(lia)) as P.
-      apply Z.le_lt_trans with (m := 8388607 * 256 ^ 29); [nia | reflexivity].
-    - destruct (Z.ltb_spec 32 e) as [_|]; [|lia]. rewrite andb_true_r in G3. apply Z.ltb_ge in G3.
-      destruct (Z.le_gt_cases e 33) as [L'|L'].
-      + assert (e = 33) as -> by lia. change (256 ^ (33 - 3)) with (256 ^ 30).
-        apply Z.le_lt_trans with (m := 65535 * 256 ^ 30); [nia | reflexivity].
-      + destruct (Z.ltb_spec 33 e) as [_|]; [|lia]. rewrite andb_true_r in G2. apply Z.ltb_ge in G2.
-        assert (e = 34) as -> by lia. change (256 ^ (34 - 3)) with (256 ^ 31).
-        apply Z.le_lt_trans with (m := 255 * 256 ^ 31); [nia | reflexivity]. }
-  exists (c * 256 ^ (e - 3)). split; [reflexivity|]. split; [|exact Hv].
-  rewrite SC. apply negb_true_iff in Govf. rewrite Govf. unfold u256. now rewrite Z.mod_small by exact Hv.
+  apply negb_true_iff in Govf.
+  pose proof (bits_to_target_eq_core _ Gok eq_refl) as BT. rewrite SC, Govf in BT. cbn [orb] in BT.
+  eexists. split; [exact BT|]. split; [rewrite SC, Govf; reflexivity|].
+  unfold u256. apply Z.mod_pos_bound. reflexivity.
 Qed.
 
 Lemma compact_guard32_guard bits : compact_guard32 bits = true -> compact_guard bits = true.
@@ -164,44 +284,75 @@ Proof.
   rewrite !andb_false_r. reflexivity.
 Qed.
 
-(* ---- the divergences outside the guard (known finding K-C17-compact) ---- *)
-
-(* exponent < 3: Python computes a float; Core an integer *)
-Lemma compact_exponent_lt3_refuted :
-  exists bits, bytes_ok bits /\ length bits = 4%nat /\
-    bits_to_target bits = Ok (PFloat 256 1) /\ set_compact (from_le bits) = (1, false, false).
-Proof. exists [0; 1; 0; 2]. repeat split; try reflexivity. repeat constructor; unfold byte_ok; lia. Qed.
-
-(* sign bit: read as magnitude by Python, as a sign by Core *)
-Lemma compact_sign_bit_refuted :
-  exists bits, bytes_ok bits /\ length bits = 4%nat /\
-    bits_to_target bits = Ok (PInt 2147483904) /\ set_compact (from_le bits) = (256, true, false).
-Proof. exists [1; 0; 128; 4]. repeat split; try reflexivity. repeat constructor; unfold byte_ok; lia. Qed.
-
-(* overflow: Python returns a number >= 2^256; Core flags overflow *)
-Lemma compact_overflow_refuted :
-  exists bits v, bytes_ok bits /\ length bits = 4%nat /\
-    bits_to_target bits = Ok (PInt v) /\ 2 ^ 256 <= v /\ snd (set_compact (from_le bits)) = true.
-Proof.
-  exists [0; 0; 1; 33], (65536 * 256 ^ 30). repeat split; try reflexivity.
-  all: try (repeat constructor; unfold byte_ok; lia).
-  all: try (intros H; discriminate H).
-Qed.
-
 (* ------------------------------------------------------------------ *)
 (* proof-of-work test *)
 Section PowSec.
 Variable hash256 : bytes -> bytes.
+
+Lemma bits_to_target_x_of bits v : bits_to_target bits = Ok (PInt v) -> bits_to_target_x bits = B2T_ok v.
+Proof. unfold bits_to_target. destruct (bits_to_target_x bits); [intros [= <-]; reflexivity | discriminate | discriminate]. Qed.
+
+(* check_pow is the consensus comparison hash <= target *)
+Lemma check_pow_consensus_le h s v :
+  serialize_header h = Ok s ->
+  bits_to_target (h_bits h) = Ok (PInt v) ->
+  check_pow hash256 h = Ok (negb (from_le (hash256 s) >? v)).
+Proof.
+  intros Hs Ht. unfold check_pow. rewrite Hs, (bits_to_target_x_of _ _ Ht). cbn [bind]. f_equal.
+  destruct (Z.leb_spec (from_le (hash256 s)) v); destruct (Z.gtb_spec (from_le (hash256 s)) v);
+    try reflexivity; lia.
+Qed.
 
 Lemma check_pow_consensus h s v :
   serialize_header h = Ok s ->
   bits_to_target (h_bits h) = Ok (PInt v) ->
   from_le (hash256 s) <> v ->
   check_pow hash256 h = Ok (negb (from_le (hash256 s) >? v)).
+Proof. intros Hs Ht _. now apply check_pow_consensus_le. Qed.
+
+(* a hash equal to the target is accepted (fd08533) *)
+Lemma check_pow_accepts_equal h s v :
+  serialize_header h = Ok s ->
+  bits_to_target (h_bits h) = Ok (PInt v) ->
+  from_le (hash256 s) = v ->
+  check_pow hash256 h = Ok true.
 Proof.
-  intros Hs Ht Hne. unfold check_pow. rewrite Hs, Ht. cbn [bind lt_pynum]. f_equal.
-  destruct (Z.ltb_spec (from_le (hash256 s)) v); destruct (Z.gtb_spec (from_le (hash256 s)) v);
-    try reflexivity; lia.
+  intros Hs Ht E. rewrite (check_pow_consensus_le h s v Hs Ht), E.
+  destruct (Z.gtb_spec v v); [lia | reflexivity].
+Qed.
+
+(* bits that Core's SetCompact flags negative or overflowing never satisfy proof of work:
+   False, not an exception (de6be4c) *)
+Lemma check_pow_flagged_bits h s :
+  serialize_header h = Ok s ->
+  bytes_ok (h_bits h) -> length (h_bits h) = 4%nat ->
+  (let '(_, neg, ovf) := set_compact (from_le (h_bits h)) in neg || ovf = true) ->
+  check_pow hash256 h = Ok false.
+Proof.
+  intros Hs Hok Hlen Hf. unfold check_pow. rewrite Hs, (bits_to_target_x_core _ Hok Hlen). cbn [bind].
+  destruct (set_compact (from_le (h_bits h))) as [[v neg] ovf]. rewrite Hf. reflexivity.
+Qed.
+
+(* check_pow = CheckProofOfWork for every header with four-byte bits, except for Core's two
+   extra range tests: the main-network powLimit (light-client scope) and "target = 0" (which
+   differs only for a hash that is 0) *)
+Lemma check_pow_core_full h s :
+  serialize_header h = Ok s ->
+  bytes_ok (h_bits h) -> length (h_bits h) = 4%nat ->
+  fst (fst (set_compact (from_le (h_bits h)))) <= pow_limit ->
+  from_le (hash256 s) <> 0 -> 0 <= from_le (hash256 s) ->
+  check_pow hash256 h = Ok (check_proof_of_work (from_le (hash256 s)) (from_le (h_bits h))).
+Proof.
+  intros Hs Hok Hlen Hlim Hnz Hpos. unfold check_pow, check_proof_of_work.
+  rewrite Hs, (bits_to_target_x_core _ Hok Hlen). cbn [bind].
+  destruct (set_compact (from_le (h_bits h))) as [[v neg] ovf]. cbn [fst] in Hlim.
+  destruct neg; [reflexivity|]. cbn [orb].
+  destruct ovf; [now rewrite orb_true_r|]. cbn [orb]. rewrite orb_false_r.
+  destruct (Z.gtb_spec v pow_limit) as [|_]; [lia|]. rewrite orb_false_r.
+  destruct (Z.eqb_spec v 0) as [->|NZ].
+  - f_equal. apply Z.leb_gt. lia.
+  - f_equal. destruct (Z.leb_spec (from_le (hash256 s)) v); destruct (Z.gtb_spec (from_le (hash256 s)) v);
+      try reflexivity; lia.
 Qed.
 
 (* full CheckProofOfWork (main-network powLimit) under its own range conditions *)
@@ -220,13 +371,14 @@ Proof.
 Qed.
 End PowSec.
 
-(* hash = target: consensus accepts, check_pow rejects (strict <) *)
-Lemma check_pow_equal_refuted :
+(* the instance that used to be refuted (K-C17-pow-eq): hash = target is now accepted, as by
+   CheckProofOfWork *)
+Lemma check_pow_equal_instance :
   exists (hash256 : bytes -> bytes) (h : header) s v,
     (forall x, length (hash256 x) = 32%nat) /\
     serialize_header h = Ok s /\ compact_guard (h_bits h) = true /\
     bits_to_target (h_bits h) = Ok (PInt v) /\ from_le (hash256 s) = v /\
-    check_pow hash256 h = Ok false /\
+    check_pow hash256 h = Ok true /\
     check_proof_of_work (from_le (hash256 s)) (from_le (h_bits h)) = true.
 Proof.
   set (v := 65535 * 256 ^ 26).
@@ -239,8 +391,7 @@ Proof.
   split; [intros x; apply to_le_length|].
   split; [exact Es|]. split; [reflexivity|]. split; [exact Et|].
   split; [exact E|]. split.
-  - unfold check_pow. rewrite Es, Et. cbn [bind lt_pynum]. rewrite E.
-    now rewrite Z.ltb_irrefl.
+  - exact (check_pow_accepts_equal (fun _ => to_le 32 v) h s v Es Et E).
   - rewrite E. reflexivity.
 Qed.
 
